@@ -58,6 +58,9 @@ let dispatch (t : Stdlib.String.t array) : Stdlib.String.t =
   | "seq" -> Seqops.seq !profile_ref t
   | "route" -> Streamops.route !profile_ref t
   | "indices" -> Streamops.indices t
+  | "frames" -> Streamops.frames t
+  | "extract" -> Streamops.extract !profile_ref t
+  | "inject" -> Streamops.inject !profile_ref t
   | "seidrop" -> Streamops.seidrop t
   | "rpufile" -> (
       let cs = int_of_string t.(1) in
